@@ -35,7 +35,10 @@ class TieWriter(Relation):
         for n in range(0, maxn + 1):
             for v in _vectors(n):
                 k += 1
-                yield dict(l=_perm(rng, n), ties=list(v), numpy=(k % 3 == 0))
+                l = _perm(rng, n)
+                if k % 4 == 1:
+                    l = [x + rng.choice([7, 95, 998]) for x in l]      # multi-digit entries
+                yield dict(l=l, ties=list(v), numpy=(k % 3 == 0))
         # decision vectors longer / shorter than the list (IndexError path of the code)
         yield dict(l=[3, 1, 2], ties=[True, False], numpy=False)
         yield dict(l=[3, 1, 2], ties=[False, True, True, True], numpy=False)
